@@ -1,9 +1,9 @@
 package rules
 
 import (
-	"go/types"
 	"fmt"
 	"go/token"
+	"go/types"
 	"strings"
 
 	"golang.org/x/tools/go/ssa"
@@ -411,6 +411,30 @@ func c06Regex(c *Ctx) {
 			}
 		}
 		c.Check(fresh, "regex-any-of", fmt.Sprintf("RegexFilterFunc return[%d] is the filter built in this call", i), p.InstrPos(r), "", "RegexFilterFunc can hand back a filter that was not built in this call (`"+RenderN(RetVals(r)[0], 3)+"`): a filter remembered from an earlier call matches on that call's field and expressions, so what one channel's filter admits depends on which other filters were configured before it")
+	}
+	// the filter body only hands its three ingredients to a helper (`return matchesAny(matchers, e, field)`): the helper is judged
+	if rets := Returns(cl); len(rets) == 1 {
+		if hc, ok := RetVals(rets[0])[0].(*ssa.Call); ok {
+			if hf := hc.Call.StaticCallee(); hf != nil && InRepo(hf) && hf.Blocks != nil && len(hf.Params) == len(hc.Call.Args) {
+				mi, ei, fi := -1, -1, -1
+				for ai, a := range hc.Call.Args {
+					switch {
+					case isMatchers(a):
+						mi = ai
+					case a == ev:
+						ei = ai
+					case isField(a):
+						fi = ai
+					}
+				}
+				if mi >= 0 && ei >= 0 && fi >= 0 {
+					hm, hfield := ssa.Value(hf.Params[mi]), ssa.Value(hf.Params[fi])
+					cl, ev = hf, hf.Params[ei]
+					isMatchers = func(v ssa.Value) bool { return v == hm }
+					isField = func(v ssa.Value) bool { return v == hfield }
+				}
+			}
+		}
 	}
 	isMatcherElem := func(v ssa.Value) bool {
 		ld, ok := isLoad(v)
